@@ -130,14 +130,10 @@ func fixHeaderOf(p packets.Packet) *packets.FixHeader {
 }
 
 // fromGmqtt converts a decoded (or constructed) gmqtt packet into the neutral
-// mqttx value, copying all data. v is the session version; it is only used for
-// the MQTT 3.1 DUP flag of PUBREL/SUBSCRIBE/UNSUBSCRIBE, which gmqtt keeps
-// nowhere but in FixHeader.Flags.
-func fromGmqtt(p packets.Packet, v mqttx.Version) (*mqttx.Packet, error) {
-	dup31 := func() bool {
-		fh := fixHeaderOf(p)
-		return v == mqttx.V31 && fh != nil && fh.Flags&0x08 != 0
-	}
+// mqttx value, copying all data. gmqtt has no field for the MQTT 3.1 DUP flag of
+// PUBREL/SUBSCRIBE/UNSUBSCRIBE (it only survives in FixHeader.Flags of a decoded
+// packet), so Dup is always false for them.
+func fromGmqtt(p packets.Packet, _ mqttx.Version) (*mqttx.Packet, error) {
 	switch t := p.(type) {
 	case *packets.Connect:
 		if t == nil {
@@ -174,7 +170,7 @@ func fromGmqtt(p packets.Packet, v mqttx.Version) (*mqttx.Packet, error) {
 		if t == nil {
 			break
 		}
-		return &mqttx.Packet{Type: mqttx.PUBREL, Dup: dup31(), PacketID: t.PacketID, Code: t.Code, Props: propsFromGmqtt(t.Properties)}, nil
+		return &mqttx.Packet{Type: mqttx.PUBREL, PacketID: t.PacketID, Code: t.Code, Props: propsFromGmqtt(t.Properties)}, nil
 	case *packets.Pubcomp:
 		if t == nil {
 			break
@@ -184,7 +180,7 @@ func fromGmqtt(p packets.Packet, v mqttx.Version) (*mqttx.Packet, error) {
 		if t == nil {
 			break
 		}
-		q := &mqttx.Packet{Type: mqttx.SUBSCRIBE, Dup: dup31(), PacketID: t.PacketID, Props: propsFromGmqtt(t.Properties)}
+		q := &mqttx.Packet{Type: mqttx.SUBSCRIBE, PacketID: t.PacketID, Props: propsFromGmqtt(t.Properties)}
 		for _, s := range t.Topics {
 			q.Subs = append(q.Subs, mqttx.Sub{Filter: s.Name, QoS: s.Qos, NoLocal: s.NoLocal, RAP: s.RetainAsPublished, RetainHandling: s.RetainHandling})
 		}
@@ -198,7 +194,7 @@ func fromGmqtt(p packets.Packet, v mqttx.Version) (*mqttx.Packet, error) {
 		if t == nil {
 			break
 		}
-		return &mqttx.Packet{Type: mqttx.UNSUBSCRIBE, Dup: dup31(), PacketID: t.PacketID, Filters: append([]string(nil), t.Topics...), Props: propsFromGmqtt(t.Properties)}, nil
+		return &mqttx.Packet{Type: mqttx.UNSUBSCRIBE, PacketID: t.PacketID, Filters: append([]string(nil), t.Topics...), Props: propsFromGmqtt(t.Properties)}, nil
 	case *packets.Unsuback:
 		if t == nil {
 			break
